@@ -342,6 +342,65 @@ theorem refused_is_definitive (c : Cfg) (s : St) (i : Inp) (rest : List Inp)
   have := nothing_after_final true c _ rest (refused_then_final c s i h) e he
   exact ⟨this.1, this.2.1⟩
 
+/-! ## What every restart-hook outcome means
+
+The property quantifies over "every restart-hook outcome (possible, not required, not possible, failed, raising,
+returning junk)".  `HookAns.refuses` are the outcomes that refuse: not required (`RestartContextRestartNotRequired`
+or the old interface's `False`), not possible, failed (`RestartContextHookFailed`) and raising (an exception that
+is not an IOError: "Will consider it RestartContextHookFailed"). -/
+
+/-- `refusing_hook_never_restarts`: a plain engine (not the simulator's unconditional restart, not a
+RepeatingEngine) whose hook module answers with a refusing outcome does not start the task again at an exit that
+is not a failed submission — from every state, whatever the budget, the exit reason, the stability of the
+system, `run()` failing or not: no `RestartInitiated`, no `run()`. -/
+theorem refusing_hook_never_restarts (fin : Bool) (c : Cfg) (s : St) (i : Inp) (hrep : c.repeating = false)
+    (hsim : c.simulator = false) (hm : c.hookModule = .scripted) (hsf : i.reason ≠ .submissionFailed)
+    (hr : i.hook.refuses = true) :
+    (step fin c s i).2 ≠ .initiated ∧ (step fin c s i).1.runs = s.runs := by
+  have key := ctrlRestart_refusing c (arrive c s i) i hrep hsim hm hsf hr
+  have e2 := (arrive_fields c s i).2.1
+  unfold step stepWith stepGen
+  simp only []
+  split
+  · exact ⟨key.1, by simp only []; rw [key.2, e2]⟩
+  · exact ⟨key.1, by rw [key.2, e2]⟩
+
+/-- … and under the real post-mortem handling the component then receives its final state: "once a restart is
+refused the component receives its final state" for a hook that answers not required / not possible / failed or
+raises. -/
+theorem refusing_hook_is_final (c : Cfg) (s : St) (i : Inp) (hrep : c.repeating = false)
+    (hsim : c.simulator = false) (hm : c.hookModule = .scripted) (hsf : i.reason ≠ .submissionFailed)
+    (hr : i.hook.refuses = true) :
+    (step true c s i).1.shutdown = true :=
+  refused_then_final c s i (refusing_hook_never_restarts true c s i hrep hsim hm hsf hr).1
+
+/-- … over histories: if every exit of a history is answered by a refusing hook (and none is a failed
+submission), nothing is ever started again — also with an unlimited budget (hook file named, no maximum). -/
+theorem refusing_hooks_never_restart (fin : Bool) (c : Cfg) (s : St) (inps : List Inp) (hrep : c.repeating = false)
+    (hsim : c.simulator = false) (hm : c.hookModule = .scripted)
+    (hall : ∀ i ∈ inps, i.reason ≠ .submissionFailed ∧ i.hook.refuses = true) :
+    (∀ e ∈ exec fin c s inps, e.code ≠ .initiated) ∧ (final fin c s inps).runs = s.runs := by
+  induction inps generalizing s with
+  | nil => simp [exec_nil, final_nil]
+  | cons i is ih =>
+    have h1 := refusing_hook_never_restarts fin c s i hrep hsim hm (hall i (List.mem_cons_self)).1
+      (hall i (List.mem_cons_self)).2
+    have h2 := ih (step fin c s i).1 (fun j hj => hall j (List.mem_cons_of_mem _ hj))
+    rw [exec_cons, final_cons]
+    refine ⟨?_, by rw [h2.2, h1.2]⟩
+    intro e he
+    rcases List.mem_cons.mp he with rfl | he
+    · exact h1.1
+    · exact h2.1 e he
+
+/-- the hook is asked (`stepAsksHook`, compared with the real hook module's call count on every run) only at
+exits whose reason is listed, that are no failed submissions, and while the budget is not used up -/
+theorem hook_asked_only_when_listed (c : Cfg) (s : St) (i : Inp) (h : stepAsksHook c s i = true) :
+    i.reason ∈ c.hookOn ∧ i.reason ≠ .submissionFailed ∧ c.repeating = false := by
+  simp only [stepAsksHook, ctrlAsksHook, Bool.and_eq_true, Bool.not_eq_true'] at h
+  have := engineAsksHook_spec c _ i h.2
+  exact ⟨this.1, this.2.1, h.1.2⟩
+
 /-! ## Non-vacuity: the hypotheses are met by concrete, non-trivial inputs -/
 
 private def hookYes : Inp := ⟨.knownIssue, .ctx .possible, false, false, true, .task⟩
@@ -374,6 +433,19 @@ example : resubCount (exec false cfgDefault St.init
 example : (exec true cfgDefault St.init [hookYes, hookNo, hookYes]).map (fun e => (e.code, e.st.shutdown, e.st.runs)) =
     [(.initiated, false, 1), (.couldNotInitiate, true, 1), (.couldNotInitiate, true, 1)] := by decide
 example : schemaValid cfgListsSF = true ∧ effMax cfgListsSF ≠ C12.unlimited := by decide
+/-- a hook that raises / reports failure at an exit with a listed reason: asked, refused, final state; with a named
+hook file and no maximum (unlimited budget) as well; the same exits answered "possible" restart every time -/
+private def cfgNamedHook : Cfg := ⟨none, true, [.knownIssue], false, false, .scripted⟩
+private def hookRaises : Inp := ⟨.knownIssue, .raises, false, false, true, .task⟩
+private def hookFailed : Inp := ⟨.knownIssue, .ctx .hookFailed, false, false, true, .task⟩
+example : stepAsksHook cfgNamedHook St.init hookRaises = true ∧ hookRaises.hook.refuses = true ∧
+    hookFailed.hook.refuses = true ∧ effMax cfgNamedHook = C12.unlimited := by decide
+example : (exec true cfgNamedHook St.init [hookYes, hookYes, hookYes, hookYes, hookRaises, hookYes]).map
+    (fun e => (e.code, e.st.shutdown, e.st.runs)) =
+    [(.initiated, false, 1), (.initiated, false, 2), (.initiated, false, 3), (.initiated, false, 4),
+     (.couldNotInitiate, true, 4), (.couldNotInitiate, true, 4)] := by decide
+example : (exec false cfgDefault St.init [hookFailed, hookRaises, hookNo]).map (·.code) =
+    [.couldNotInitiate, .couldNotInitiate, .couldNotInitiate] := by decide
 example : effMax ⟨none, true, [], false, false, .fallback⟩ = C12.unlimited := by decide
 
 end St4sd.C12
